@@ -309,6 +309,14 @@ def check_placement(case, acc):
                 gs = {k: (s.start, s.stop) for k, s in out.slices.items()}
                 if gs != expS:
                     problems.setdefault(("new-group-block", "slices"), f"{tag}: slices {gs}, expected {expS}")
+                for name_ in out.terms:  # the block of each term, read through the result itself
+                    a_, b_ = gs.get(name_, (0, 0))
+                    try:
+                        blk = np.asarray(out[name_], dtype=float)
+                        if blk.shape != got[:, a_:b_].shape or not np.array_equal(blk, got[:, a_:b_]):
+                            problems.setdefault(("new-group-block", "term-access"), f"{tag}: result[{name_!r}] has shape {blk.shape}, it is not the columns {a_}:{b_} of the result's matrix")
+                    except Exception as e:
+                        problems.setdefault(("new-group-block", "term-access-" + exc_sig(e)), f"{tag}: result[{name_!r}] raised {type(e).__name__}: {e}")
                 if tuple(out.factors_with_new_levels) != expF:
                     problems.setdefault(("factors-with-new-levels", "names"), f"{tag}: factors_with_new_levels {out.factors_with_new_levels}, expected {expF}")
                 if mode == "silent" and ours:
